@@ -61,6 +61,37 @@ class Store:
                 cand.discard(l)
         self.flags = cand
 
+    def _variant_behind(self, op, st, depth=0):
+        """Variant name of the enum value an operand refers to (through `&`, `&*`, copies and promoted constants), when the store knows it."""
+        if depth > 6 or op is None:
+            return None
+        if op.get("k") == "const":
+            if "def" in op and "promoted" in op and self.prog is not None and hasattr(self.prog, "bodies"):
+                pb = self.prog.bodies.get(f"{op['def']}::promoted[{op['promoted']}]")
+                if pb is not None:
+                    aggs = [s_["rv"] for blk in pb.blocks for s_ in blk["stmts"] if s_.get("rv") and s_["rv"].get("k") == "agg" and s_["rv"].get("agg") == "adt" and s_["rv"].get("variant")]
+                    if len(aggs) == 1 and not aggs[0].get("ops"):
+                        return aggs[0]["variant"]
+            return None
+        l = op_local(op)
+        if l is None:
+            return None
+        if [e for e in op["pl"]["p"] if e[0] != "d"]:
+            return None
+        if ("var", l) in st and not op["pl"]["p"]:
+            return st[("var", l)]
+        ds = [d for d in self.body.defs().get(l, []) if not (d[2] == "assign" and d[3]["pl"]["p"])]
+        if len(ds) != 1 or ds[0][2] != "assign":
+            return st.get(("var", l))
+        rv = ds[0][3]["rv"]
+        if rv["k"] == "use":
+            return self._variant_behind(rv["o"], st, depth + 1)
+        if rv["k"] == "ref" and not [e for e in rv["pl"]["p"] if e[0] != "d"]:
+            if ("var", rv["pl"]["l"]) in st:
+                return st[("var", rv["pl"]["l"])]
+            return self._variant_behind({"k": "copy", "pl": {"l": rv["pl"]["l"], "p": []}}, st, depth + 1)
+        return None
+
     def transfer_block(self, b, st):
         st = dict(st)
         blk = self.body.blocks[b]
@@ -105,6 +136,14 @@ class Store:
             else:
                 st.pop(("var", l), None)
                 st.pop(("discr", l), None)
+            st.pop(("dval", l), None)
+            if rv["k"] == "use" and op_local(rv["o"]) is not None and not rv["o"]["pl"]["p"] and ("dval", op_local(rv["o"])) in st:
+                st[("dval", l)] = st[("dval", op_local(rv["o"]))]
+            if l in self.flags and rv["k"] == "bin" and rv["op"] in ("Eq", "Ne"):
+                a_, b_ = op_local(rv["l"]), op_local(rv["r"])
+                if a_ is not None and b_ is not None and ("dval", a_) in st and ("dval", b_) in st:
+                    st[("flag", l)] = (st[("dval", a_)] == st[("dval", b_)]) == (rv["op"] == "Eq")
+                    continue
             if l in self.flags:
                 if s["rv"]["k"] == "use":
                     o = s["rv"]["o"]
@@ -125,6 +164,12 @@ class Store:
             nm = t.get("callee") or ""
             dl_ = t["dest"]["l"]
             st.pop(("flag", dl_), None)
+            st.pop(("dval", dl_), None)
+            if nm.endswith("intrinsics::discriminant_value") and t.get("args"):
+                # derived `PartialEq` of a field-less enum compares `discriminant_value(&a) == discriminant_value(&b)`
+                vn = self._variant_behind(t["args"][0], st)
+                if vn is not None:
+                    st[("dval", dl_)] = vn
             a0 = op_local(t["args"][0]) if t.get("args") and t["args"][0].get("pl") and not t["args"][0]["pl"]["p"] else None
             tag = st.get(("var", a0)) if a0 is not None else None
             new = None
